@@ -221,3 +221,11 @@ PROPS['C20'] = dict(
     kinds={'panic', 'revisit-untruthful', 'revisit-roundtrip', 'merge-wrong', 'type-disagrees'},
     rule='TODO', level_text='TODO', level_note='TODO',
 )
+
+PROPS['C15'] = dict(
+    id='C15', domains=['res'], no_model={'res': True},
+    n=dict(quick=dict(res=1500), thorough=dict(res=60000)),
+    theorems=[('Properties.C15', [])],
+    kinds={'panic', 'leak'},
+    rule='TODO', level_text='TODO', level_note='TODO',
+)
